@@ -162,7 +162,11 @@ structure Renamed where
   changedContent : Bool
   deriving DecidableEq, Repr
 
+/-- a kind change: `old` is the path in the previously uploaded tree (it
+differs from `path`, the path in the new tree, when an ancestor directory is
+renamed in the same delta) -/
 structure KindChanged where
+  old : Path
   path : Path
   oldKind : Kind
   newKind : Kind
@@ -221,6 +225,10 @@ leaves regular files alone).  The check probes the code under test. -/
 structure Cfg where
   renames : Variant := .asFound
   robustSymlinks : Bool := false
+  /-- a kind change removes the old object at the entry's NEW path (`true`) or,
+  as found, at its OLD path - which no longer exists when an ancestor directory
+  was renamed in the same delta, the renames being finished by then -/
+  kindChangeAtNew : Bool := false
   deriving DecidableEq, Repr
 
 def symlinkStep (c : Cfg) (p : Path) (t : String) : Step :=
@@ -252,8 +260,9 @@ def planInc (c : Cfg) (ign : List String) (t : Tree) (d : Delta) : List Step :=
   ++ [.finishRenames, .finishDeletions]
   ++ ((d.kindChanged.filter (fun k => !ignored ign k.path)).flatMap fun k =>
       (match k.oldKind with
-        | .dir => [Step.rmdir k.path]
-        | _ => [Step.delete k.path]) ++ createSteps c t k.path)
+        -- as found the code deletes at `change.path[0]`, after the renames have been finished
+        | .dir => [Step.rmdir (if c.kindChangeAtNew then k.path else k.old)]
+        | _ => [Step.delete (if c.kindChangeAtNew then k.path else k.old)]) ++ createSteps c t k.path)
   ++ ((d.added.filter (fun p => !ignored ign p)).flatMap (createSteps c t))
   ++ ((d.modified.filter (fun p => !ignored ign p)).flatMap fun p =>
       match t.find p with
